@@ -289,10 +289,10 @@ def flow_rules(prog, R):
         from rules_err import ok_return_blocks
         readers = [b for b in prog.bodies.values() if b.key.startswith('fastq::Reader::') and b.path not in vset and '{closure' not in b.key]
 
-        def judge(b, blkidx, line, depth, via):
+        def holds(b, blkidx, depth):
             """from block blkidx of b (where the record end was assigned, or a helper that assigns it was called) no success
-            return may be reached without validation; a helper that never validates hands the obligation to its callers"""
-            nonlocal n
+            return is reached without validation; a helper that never validates hands the obligation to its callers.
+            -> (ok, explanation)"""
             vblocks = set(x for x, t in b.calls() if prog.local_callee_body(t.callee) is not None and prog.local_callee_body(t.callee).path in vset)
             okret = ok_return_blocks(b)
             reach = b.cfg.reach_from(blkidx, removed=vblocks, include_start=True)
@@ -302,15 +302,19 @@ def flow_rules(prog, R):
             if not vblocks and depth < 3 and (bad or (not okret and rets)):
                 callers = [(cb_, x) for cb_ in readers for x, t in cb_.calls() if prog.local_callee_body(t.callee) is b]
                 if callers:
-                    for cb_, x in callers:
-                        judge(cb_, x, cb_.blocks[x].term.line, depth + 1, via + [b.key.rsplit('::', 1)[-1]])
-                    return
+                    res = [(cb_, holds(cb_, x, depth + 1)) for cb_, x in callers]
+                    if all(r[0] for _, r in res):
+                        return True, 'not validated here; every caller (%s) validates after the call' % ', '.join(sorted(set(cb_.key.rsplit('::', 1)[-1] for cb_, _ in res)))
+                    return False, 'not validated here, and not after the call in %s' % ', '.join(sorted(set(cb_.key.rsplit('::', 1)[-1] for cb_, r in res if not r[0])))
+            return (not bad and bool(vblocks)), 'success return reachable without validation: %s' % bad
+
+        def judge(b, blkidx, line, depth, via):
+            nonlocal n
             n += 1
-            okv = not bad and bool(vblocks)
+            okv, why = holds(b, blkidx, 0)
             R.add('FSM-V', b, 'completion-site#%d' % n, okv or bool(ghost_ok), site(b, line),
-                  'record end assigned%s; success return reachable without validation: %s%s' % (
-                      ' (in %s)' % ' <- '.join(via) if via else '', bad,
-                      '' if okv or not ghost_ok else ' - only on paths on which no record is reported as located (decided path-sensitively, see located-records-are-validated)'))
+                  'record end assigned; %s%s' % (why, '' if okv or not ghost_ok else
+                                                  ' - only on paths on which no record is reported as located (decided path-sensitively, see located-records-are-validated)'))
         for b in readers:
             for blk in b.blocks:
                 if blk.idx not in b.cfg.rset:
@@ -340,9 +344,11 @@ def flow_rules(prog, R):
             n = 0
             if cb.key in targets:
                 n = 1
-            elif depth < 3 and cb.key not in seen and ('::Reader::' in cb.key or '::Records' in cb.key):
+            elif depth < 3 and cb.key not in seen and ('::Reader::' in cb.key or '::Records' in cb.key or any(
+                    '&mut' in cb.local_tys[i] and '::Reader<' in cb.local_tys[i] for i in range(1, cb.arg_count + 1))):
+                # a private helper: a reader method, or a free function that is handed the reader (`next_owned(rdr)`)
                 n, o2 = max_ops(cb, targets, depth + 1, seen + (body.key,))
-                if n == 0 and cb.arg_count >= 1 and '&mut' in cb.local_tys[1] and '::Reader::' in cb.key:
+                if n == 0 and cb.arg_count >= 1 and '&mut' in cb.local_tys[1] and ('::Reader::' in cb.key or '::Reader<' in cb.local_tys[1]):
                     others.append(cb.key)
                 others += o2
             elif cb.arg_count >= 1 and '&mut' in cb.local_tys[1] and '::Reader<' in cb.local_tys[1]:
@@ -402,7 +408,8 @@ def flow_rules(prog, R):
               'every Some(Ok) exit copied the whole reader buffer into the cleared byte buffer of the set (checked together with FSM-S1: a set left without this copy is dirty)')
     R.floor('FSM-S4', 4)
     # ---------------- SEEK-1
-    refills = refill_fn(prog)
+    from rules_err import refill_family
+    refills = refill_family(prog)
     for fmt, partial in (('fasta', 'search_pos'), ('fastq', 'incomplete_pos')):
         try:
             b = prog.get('%s::Reader::seek' % fmt)
